@@ -149,6 +149,197 @@ def _cases(M, E, J, Tk, it):
     return base
 
 
+# ---- typed expression generator (types known by construction) ---------------------------------
+class TGen:
+    """Grows well-typed expressions from the class model; every production is one whose typing
+    the fixed corpus above already exercises (no new typing rule is introduced here)."""
+
+    def __init__(self, M, rng):
+        self.M, self.rng = M, rng
+        self.E, self.J, self.Tk = M["Event"], M["Jet"], M["Track"]
+        self.num, self.other = M["num"], M["other"]
+        self.k = 0
+
+    def it(self, x):
+        return Iterable[x]
+
+    def fresh(self, scope):
+        # sometimes re-use a name that is already bound (shadowing), mostly a new one
+        if scope and self.rng.random() < 0.25:
+            return self.rng.choice(scope)[0]
+        self.k += 1
+        return f"v{self.k}"
+
+    def obj(self, ty, scope, d):
+        """(source, type) of an expression of class type ty (Event / Jet / Track)."""
+        r = self.rng
+        vs = [n for n, t_ in scope if t_ is ty]
+        opts = []
+        if vs:
+            opts += [lambda: r.choice(vs)] * 3
+        if ty is self.J:
+            opts.append(lambda: self.obj(self.E, scope, d - 1) + ".lead()")
+            if d > 0:
+                opts.append(lambda: self.coll(self.J, scope, d - 1) + ".First()")
+                opts.append(lambda: self.coll(self.J, scope, d - 1) + "[0]")
+                opts.append(lambda: self.obj(self.E, scope, d - 1) + ".JColl().corner()")
+                opts.append(lambda: self.obj(self.E, scope, d - 1) + ".box().first()")
+                opts.append(lambda: self.obj(self.E, scope, d - 1) + ".JC2().best()")
+        if ty is self.Tk:
+            opts.append(lambda: self.obj(self.J, scope, d - 1) + ".lead()")
+            if d > 0:
+                opts.append(lambda: self.coll(self.Tk, scope, d - 1) + ".First()")
+        if not opts or (ty is self.E and not vs):
+            return None
+        if ty is self.E:
+            return r.choice(vs)
+        for _ in range(6):
+            try:
+                v = r.choice(opts)()
+            except TypeError:
+                v = None
+            if v is not None:
+                return v
+        return None
+
+    def coll(self, elt, scope, d):
+        """source of an expression of type Iterable[elt] (elt: Jet, Track, num, other)."""
+        r = self.rng
+        opts = []
+        if elt is self.J:
+            opts.append(lambda: self.obj(self.E, scope, d - 1) + ".Jets()")
+            opts.append(lambda: self.obj(self.E, scope, d - 1) + ".box().both()")
+        if elt is self.Tk:
+            opts.append(lambda: self.obj(self.J, scope, d - 1) + ".Tracks()")
+            if d > 0:
+                opts.append(lambda: self.obj(self.E, scope, d - 1) + ".TGrid().diag()")
+                opts.append(lambda: self.smany(self.J, self.Tk, scope, d - 1))
+        if d > 0:
+            if elt in (self.J, self.Tk):
+                opts.append(lambda: self.where(elt, scope, d - 1))
+            src_elt = r.choice([self.J, self.Tk])
+            opts.append(lambda: self.select(src_elt, elt, scope, d - 1))
+        for _ in range(6):
+            try:
+                v = r.choice(opts)() if opts else None
+            except TypeError:
+                v = None
+            if v is not None:
+                return v
+        return None
+
+    def select(self, src_elt, elt, scope, d):
+        c = self.coll(src_elt, scope, d)
+        if c is None:
+            return None
+        v = self.fresh(scope)
+        sc = [(n, t_) for n, t_ in scope if n != v] + [(v, src_elt)]
+        body = self.val(elt, sc, d) if elt not in (self.J, self.Tk) else self.obj(elt, sc, d)
+        return None if body is None else f"{c}.Select(lambda {v}: {body})"
+
+    def where(self, elt, scope, d):
+        c = self.coll(elt, scope, d)
+        if c is None:
+            return None
+        v = self.fresh(scope)
+        sc = [(n, t_) for n, t_ in scope if n != v] + [(v, elt)]
+        body = self.val(bool, sc, d)
+        return None if body is None else f"{c}.Where(lambda {v}: {body})"
+
+    def smany(self, src_elt, elt, scope, d):
+        c = self.coll(src_elt, scope, d)
+        if c is None:
+            return None
+        v = self.fresh(scope)
+        sc = [(n, t_) for n, t_ in scope if n != v] + [(v, src_elt)]
+        body = self.coll(elt, sc, d)
+        return None if body is None else f"{c}.SelectMany(lambda {v}: {body})"
+
+    def val(self, ty, scope, d):
+        """source of an expression of scalar type ty (num / other / bool)."""
+        r = self.rng
+        num, other = self.num, self.other
+        opts = []
+        j = lambda: self.obj(self.J, scope, d - 1)
+        tk = lambda: self.obj(self.Tk, scope, d - 1)
+        ev = lambda: self.obj(self.E, scope, d - 1)
+        if ty is num:
+            opts += [lambda: j() + ".pt()", lambda: tk() + ".pt()", lambda: ev() + ".met()"]
+        if ty is other:
+            opts += [lambda: j() + ".ntrk()", lambda: tk() + ".charge()", lambda: ev() + ".n()"]
+        if ty is int:
+            opts += [lambda: j() + ".idx()", lambda: str(r.randint(0, 9))]
+            if d > 0:
+                opts += [lambda: self.coll(r.choice([self.J, self.Tk]), scope, d - 1) + ".Count()",
+                         lambda: "len(" + self.coll(r.choice([self.J, self.Tk]), scope, d - 1) + ")"]
+        if ty is float:
+            opts += [lambda: j() + ".mass()"]
+        if ty is bool:
+            opts += [lambda: j() + ".isGood()", lambda: tk() + ".good()", lambda: ev() + ".flag()"]
+            if d > 0:
+                a = r.choice([int, float])
+                opts += [lambda: f"{self.val(a, scope, d - 1)} {r.choice(['>', '<', '==', '>=', '!='])} "
+                                 f"{self.val(a, scope, d - 1)}",
+                         lambda: f"({self.val(bool, scope, d - 1)} {r.choice(['and', 'or'])} "
+                                 f"{self.val(bool, scope, d - 1)})",
+                         lambda: f"(not {self.val(bool, scope, d - 1)})"]
+        if d > 0 and ty in (int, float):
+            if ty is int:
+                opts.append(lambda: f"({self.val(int, scope, d - 1)} {r.choice(['+', '-', '*'])} "
+                                    f"{self.val(int, scope, d - 1)})")
+            else:
+                opts.append(lambda: f"({self.val(r.choice([int, float]), scope, d - 1)} "
+                                    f"{r.choice(['+', '-', '*'])} {self.val(float, scope, d - 1)})")
+                opts.append(lambda: f"({self.val(int, scope, d - 1)} / {self.val(int, scope, d - 1)})")
+            opts.append(lambda: f"({self.val(ty, scope, d - 1)} if {self.val(bool, scope, d - 1)} "
+                                f"else {self.val(ty, scope, d - 1)})")
+            opts.append(lambda: f"({self.val(ty, scope, d - 1)}, {self.val(bool, scope, d - 1)})[0]")
+            opts.append(lambda: "{'a': " + str(self.val(ty, scope, d - 1)) + ", 'b': "
+                                + str(self.val(bool, scope, d - 1)) + "}.a")
+        for _ in range(8):
+            try:
+                v = r.choice(opts)() if opts else None
+            except TypeError:
+                v = None
+            if v is not None and "None" not in v:
+                return v
+        return None
+
+    def expression(self, d):
+        r = self.rng
+        scope = [("e", self.E)]
+        kind = r.choice(["val", "val", "obj", "coll", "coll"])
+        if kind == "val":
+            ty = r.choice([int, float, bool])
+            return self.val(ty, scope, d), ty
+        if kind == "obj":
+            ty = r.choice([self.J, self.Tk])
+            return self.obj(ty, scope, d), ty
+        elt = r.choice([self.J, self.Tk, int, float, bool])
+        return self.coll(elt, scope, d), Iterable[elt]
+
+
+def generated_cases(M, rng, n, depth):
+    g = TGen(M, rng)
+    out, seen = [], set()
+    tries = 0
+    while len(out) < n and tries < n * 20:
+        tries += 1
+        try:
+            src, ty = g.expression(rng.randint(1, depth))
+        except (TypeError, RecursionError):
+            continue
+        if src is None or "None" in src or len(src) > 400 or src in seen:
+            continue
+        try:
+            ast.parse(src, mode="eval")
+        except SyntaxError:
+            continue
+        seen.add(src)
+        out.append((src, ty))
+    return out
+
+
 def same_type(a, b):
     if a is b or a == b:
         return True
@@ -187,7 +378,11 @@ def run_model(t, M, variant):
                    "conditionals, dictionary and tuple field access; stream-level operators and the "
                    "non-boolean Where refusal; non-trivial = expression contains a generic or "
                    "collection step; distinct by expression text")
-    for src, exp in cases(M):
+    n_gen = 120 if t.tier == "quick" else 6000
+    extra = generated_cases(M, t.rng, n_gen if variant == 0 else n_gen // 4, 3 if t.tier == "quick" else 4)
+    t.bounds.append(f"model {variant}: {len(extra)} generated well-typed expressions (depth <= "
+                    f"{3 if t.tier == 'quick' else 4}, seeded)")
+    for src, exp in list(cases(M)) + extra:
         key = f"C08:m{variant}:" + src
         nontriv = any(x in src for x in ("Coll", "Grid", "box", "Select", "Where", "First", "["))
         t.case(key, nontriv, sample=f"{src} : {exp}")
